@@ -53,6 +53,21 @@ def gen(rng, tier, index):
     elif cfg["persistence"] and rng.random() < 0.2:
         # one scheduled save hits a transient I/O error; nothing changes afterwards
         ops.append(["fault_tick", rng.choice(["open", "write", "flush", "fsync", "close", "rename", "rename2", "rename2", "remove"]), rng.choice(["EIO", "EACCES", "ENOSPC"])])
+    if cfg["flavour"] not in ("mqtt", "amqtt") and rng.random() < 0.15:
+        # the last change is IN FLIGHT when a save tick fires: one or two forced switches inside the code that applies it
+        # (allocator, presentation, value and attribute handlers, the dirty mark), everything else runs to its next
+        # blocking point - a whole save may slip in between two statements of a handler; then nothing else, then stop()
+        line = rng.choice(["255;255;3;0;3;"] * 6 + [f"{rng.choice([70, 71])};255;0;0;17;2.0", f"{rng.choice([1, 2, 3])};{rng.choice([50, 51])};0;0;6;in flight",
+                           f"{rng.choice([1, 2, 3])};255;3;0;0;{rng.randint(1, 99)}", f"{rng.choice([1, 2, 3])};255;3;0;11;in flight"])
+        cfg["window"] = rng.choice([["add_sensor"], ["add_sensor"], ["add_sensor", "_get_next_id", "handle_id_request", "alert", "handle_presentation", "add_child_sensor",
+                                                     "handle_battery_level", "handle_sketch_name"]])
+        cfg["sched"] = {"policy": "pct", "seed": rng.getrandbits(32), "k": rng.choice([1, 2]), "arm": True,
+                        "horizon": 8 if len(cfg["window"]) == 1 else 24, "timer_slack": 0.02}
+        cfg["max_steps"] = 1_500_000
+        ops.append(["line", f"{rng.choice([5, 6, 7])};255;0;0;17;2.0"])
+        ops.append([rng.choice(["line_at_save", "line_at_tick"]), line])
+        ops.append(["restart"])
+        return {"cfg": cfg, "ops": ops}
     if rng.random() < 0.35:
         # stop() racing with a scheduled save that has something to write
         cfg["sched"] = {"policy": "rw", "seed": rng.getrandbits(32), "p": rng.choice([0.02, 0.08, 0.2])}
